@@ -1124,3 +1124,33 @@ def truth_formula(view):
                 val = _atom(v)
             disj.append(("and", [pc, val]))
     return ("or", disj)
+
+
+def quantifier_loops(view):
+    """explicit any/all loops (the normal form N8 gives to `x = any(..)`, `return all(..)`, `if any(..): <jump>`):
+       for v in ITER: if TEST: <x = CONST; break | return CONST | jump>
+    -> [{"node": for-header, "iter": text of ITER by value, "var": v, "test": text of TEST, "sets": CONST or None, "kind": "any"|"all"}]
+    kind is "any" when the hit sets/returns True (or jumps), "all" when it sets/returns False (TEST is then the negated element)."""
+    out = []
+    for h in view.cfg.nodes:
+        if h.kind != "for" or not isinstance(h.ast.target, ast.Name) or len(h.ast.body) != 1 or h.ast.orelse:
+            continue
+        inner = h.ast.body[0]
+        if not isinstance(inner, ast.If) or inner.orelse or not inner.body:
+            continue
+        last = inner.body[-1]
+        sets = None
+        if isinstance(last, ast.Break) and len(inner.body) == 2 and isinstance(inner.body[0], ast.Assign) and \
+                isinstance(inner.body[0].value, ast.Constant) and isinstance(inner.body[0].targets[0], ast.Name):
+            sets = inner.body[0].value.value
+        elif isinstance(last, ast.Return) and len(inner.body) == 1 and isinstance(last.value, ast.Constant):
+            sets = last.value.value
+        elif not isinstance(last, (ast.Break, ast.Return, ast.Raise, ast.Continue)):
+            continue
+        try:
+            it = src(view.sym(h.ast.iter, h))
+        except Exception:
+            it = src(h.ast.iter)
+        out.append({"node": h, "iter": it, "var": h.ast.target.id, "test": src(inner.test), "sets": sets,
+                    "kind": "all" if sets is False else "any"})
+    return out
